@@ -10,8 +10,10 @@ CHECKS = {
         text='Bounded symbolic model checking of the real fuzzy-producing commands: every feasible path of each execute() within the '
              'stated array/arity bounds is explored with unconstrained symbolic inputs and parameters, and "missing or -1<=v<=1" is proved per cell by z3; '
              'every path model is also executed on the real numpy to validate the numpy stand-in.',
-        note='Trusted: z3, the symnp stand-in for numpy.ma (validated per explored path against real numpy 1.26), floats modelled as reals; bounds in evidence.',
-        ref='DESIGN.md §2 C04'),
+        note='Trusted: z3, the symnp stand-in for numpy.ma (validated per explored path against real numpy 1.26), floats modelled as reals; '
+             'the jobs marked rounding add an unconstrained error of up to 2^-40 to every array operation (an over-approximation of rounding for moderate magnitudes) - '
+             'their counterexamples are reported only when real doubles reproduce them; bounds in evidence.',
+        ref='DESIGN.md §2 C04, §A.2'),
 }
 CHECKS['C03'] = dict(
     technique='symbolic execution of every data command on z3-term masked arrays; mask = union-of-input-masks obligation and payload non-interference by self-composition, decided by z3',
